@@ -257,6 +257,17 @@ def run(ctx):
             success_paths_pass(ctx, dc, hdr[0], sa, "R-C09.4", "version-marker-synced", "sync_all on the version marker after writing it")
             ok = len(fd) >= 2 and all(A.dominates(dc, sa[0], f) for f in fd) if sa else False
             ctx.ob("R-C09.4", dc, "directories-fsynced-after-marker", ok, "both directories are fsynced after the marker (%d fsync_directory calls)" % len(fd))
+            # the folder that holds the marker is made durable LAST: once the marker's directory entry survives a power loss,
+            # everything the marker vouches for (the keyspaces folder and what was created in it) must survive too
+            og_dc = ctx.og(dc)
+            root = [f for f in fd if A.tstr(og_dc.of_operand(dc.term(f)["args"][0])).endswith(".path") and
+                    not any(x.k == "call" and x.a[0].endswith("::join") for x in A.walk(og_dc.of_operand(dc.term(f)["args"][0])))]
+            others = [f for f in fd if f not in root]
+            okl = len(root) == 1 and bool(others) and all(A.dominates(dc, o, root[0]) for o in others)
+            ctx.ob("R-C09.4", dc, "marker-folder-is-synced-last", okl,
+                   "fsync_directory(config.path) follows the fsync of every sub-folder" if okl else
+                   "the folder holding the version marker is fsynced before a sub-folder is (%d root / %d other directory syncs): after a power loss the marker can exist while the keyspaces folder it vouches for is incomplete" % (len(root), len(others)),
+                   dc.loc(root[0]) if root else "")
         else:
             ctx.ob("R-C09.4", dc, "writes-version-marker", False, "Database::create_new does not write the version marker")
     rec = ctx.fn("db::Database::recover", "R-C09.4")
